@@ -204,10 +204,14 @@ Theorem pdt_map_inactive s A T ownA own slot page frame flags :
        (forall q, hw_idx q 0 <> 511 -> translation s3 T q = translation s T q) /\
        flog s3 = lea_of A :: lea_of A :: flog s) /\
     same_env s s3 /\
-    (exists n, orc s3 = skipn n (orc s) /\ forall f, own' f = own f \/ (own f = None /\ In f (firstn n (orc s)) /\ f <> 0)).
+    (exists n, orc s3 = skipn n (orc s) /\ forall f, own' f = own f \/ (own f = None /\ In f (firstn n (orc s)) /\ f <> 0)) /\
+    (length (orc s) <= length (orc s3) + 3)%nat /\
+    ((3 <= length (orc s))%nat -> Forall (fun x => x <> 0) (firstn 3 (orc s)) -> err = 0).
 Proof.
   intros HI2 Hslot H511 Hg.
   set (Q := fun (s1 s2 : st) (err : N) (own' : ownmap) =>
+              ((length (orc s1) <= length (orc s2) + 3)%nat /\
+               ((3 <= length (orc s1))%nat -> Forall (fun x => x <> 0) (firstn 3 (orc s1)) -> err = 0)) /\
               (err = 0 \/ err = E_ALLOC) /\
               (err = 0 ->
                  aspace s2 T page = Some (set_flags (set_frame 0 frame) flags) /\
@@ -219,10 +223,10 @@ Proof.
   { intros s1 HI1 Henv Horc.
     assert (Hg1: zero_guard s1 frame flags = false).
     { unfold zero_guard in *. destruct Henv as (_ & _ & _ & _ & _ & Ez & Ep & _). rewrite Ez, Ep. exact Hg. }
-    destruct (map_ok s1 A T own page frame flags HI1 H511 Hg1) as (s2 & err & own' & Hr & HI & He & Herr & Hok & Hfail & Hfr & _ & Hn & _).
+    destruct (map_ok s1 A T own page frame flags HI1 H511 Hg1) as (s2 & err & own' & Hr & HI & He & Herr & Hok & Hfail & Hfr & _ & Hn & _ & _ & Hb1 & Hb2).
     exists s2, err, own'. split; [split; [exact Hr|]; split; [exact HI|]; split; [exact He|]; split; [exact Hfr | exact Hn]|].
-    split; [exact Herr|]. split; assumption. }
-  destruct HQ as (Herr & Hok & Hfail).
+    split; [split; assumption|]. split; [exact Herr|]. split; assumption. }
+  destruct HQ as ((Hb1 & Hb2) & Herr & Hok & Hfail).
   destruct HT as (Hrun2 & HI2' & Henv2 & Hfr2 & Hn2).
   exists s3, err, own'. split; [exact Hrun|]. split; [exact HI3|]. split; [exact Herr|].
   split; [exact HtreeA|]. split; [exact HaspA|].
@@ -243,10 +247,11 @@ Proof.
   { eapply same_env_trans; [|eapply same_env_trans; [exact Henv2|]].
     - rewrite Es1. repeat split.
     - rewrite Es3. repeat split. }
-  destruct Hn2 as (n & Hn & Hown). exists n.
   assert (Eo1: orc s1 = orc s) by (rewrite Es1; reflexivity).
-  rewrite Eo1 in *. split; [|exact Hown].
-  rewrite Es3. cbn [orc flush set_flog wr_st set_mem]. exact Hn.
+  assert (Eo3: orc s3 = orc s2) by (rewrite Es3; reflexivity).
+  split.
+  { destruct Hn2 as (n & Hn & Hown). exists n. rewrite Eo1 in *. split; [|exact Hown]. rewrite Eo3. exact Hn. }
+  rewrite Eo1 in *. rewrite Eo3. split; assumption.
 Qed.
 
 (** pdt_inactive_frame for Unmap *)
